@@ -768,10 +768,9 @@ else:
             """Serialize to dictionary."""
             result = {}
 
+            # The instance dict holds nothing but field values and unknown ("extra")
+            # members, so every key is data - also one such as "__typename"
             for key, value in self.__dict__.items():
-                if key.startswith("__"):
-                    continue
-
                 if include and key not in include:
                     continue
                 if exclude and self._should_exclude(key, exclude):
